@@ -209,6 +209,7 @@ func vfC15Run(cs vfC15Case, res *vfC15Res) string {
 	fdBase = vfCountFDs()
 	maxFD = 0
 	var werr error
+	var scratch []byte
 	for i, ch := range chunks {
 		if i > 0 {
 			if hdr[off] {
@@ -218,7 +219,9 @@ func vfC15Run(cs vfC15Case, res *vfC15Res) string {
 				res.boundaryCut = true
 			}
 		}
-		if werr = writeAll(w, ch); werr != nil {
+		// the caller owns the slice again once Write has returned (io.Writer: "Write must not retain p"): every piece is handed
+		// over in one reused scratch buffer, the way a copy loop does, and the buffer is overwritten afterwards
+		if werr = vfWriteReused(w, ch, &scratch); werr != nil {
 			break
 		}
 		off += len(ch)
